@@ -1,5 +1,5 @@
 CFG = {
-    "modules": ["Parsley.Props.C03", "Parsley.Props.C03E2E", "Parsley.Props.C03E2EXref", "Parsley.Props.C03E2EObjStm", "Parsley.Props.C03E2EAll", "Parsley.Props.C03Render"],
+    "modules": ["Parsley.Props.C03", "Parsley.Props.C03E2E", "Parsley.Props.C03E2EXref", "Parsley.Props.C03E2EObjStm", "Parsley.Props.C03E2EAll", "Parsley.Props.C03Render", "Parsley.Props.C03RenderX"],
     "theorems": [
         "Parsley.C03.identity_mismatch_rejected", "Parsley.C03.identity_mismatch_rejected_second",
         "Parsley.C03.firstPass_reject_lifts", "Parsley.C03.firstPass_direct",
@@ -47,6 +47,9 @@ CFG = {
         "Parsley.LoaderObjStm.stage_two_pass_objstm", "Parsley.LoaderObjStm.stage_two_pass_objstm_written",
         "Parsley.LoaderObjStm.stage_two_pass_from", "Parsley.LoaderObjStm.firstPass_two0", "Parsley.LoaderObjStm.secondPass_two0",
         "Parsley.LoaderObjStm.tp_loads",
+        "Parsley.C03.renderHistory_xrefstream_wf_partial", "Parsley.C03.render_xrefstream_loads_partial", "Parsley.C03.render_xrefstream_binds_partial",
+        "Parsley.LoaderE2E.renderXrefStream_eq", "Parsley.LoaderE2E.xstm_ok", "Parsley.LoaderE2E.xstm_dict", "Parsley.LoaderE2E.xstm_stored",
+        "Parsley.LoaderE2E.xfileOf_wf", "Parsley.LoaderE2E.render_is_xrefstream",
     ],
     "partial": {
         "load_defines_exactly_partial":
@@ -96,12 +99,19 @@ CFG = {
             "them (second pass; `dep` marks them, HoldersOK), object streams with members - via LoaderObjStm.stage_two_pass_objstm (both passes + object-stream pass from any "
             "sorted context, generalising LoaderTwoPass to a non-empty context and mixed infos). Non-vacuity exDFile_wf / exEFile_wf (forward /Length stream + holder after it + "
             "object stream, behind a cross-reference stream and behind a hybrid table). "
+            "(f) LINK GENERATOR -> THEOREM for cross-reference streams (Props/C03RenderX.lean): renderHistory_xrefstream_wf_partial proves that the file written by "
+            "DocSpec.renderHistory for ONE revision with lay.kind = 1 (no offset swap / relabel, no object-stream members) is the byte string of a well-formed XrefStreamFile for "
+            "the subsections and /W widths xrefStreamParts computes, and that this layout's objects - the cross-reference stream object ((xnum,0), xv) included - are exactly "
+            "Said.written; render_xrefstream_loads_partial / _binds_partial compose it with load_defines_exactly_xrefstream. Unrestricted: choice streams, padding, ofsAtPad, /Index "
+            "partition (cut), /Index omitted or written, extra width bytes, type-field width, dictionary rotation, storage (unfiltered / FlateDecode / FlateDecode + PNG-Up), free "
+            "entries, object 0, garbage without the magic, binary comment. _partial: scalar values only (as (d)); side conditions file < 2^32 bytes, generations <= 65535, numbers < "
+            "2^63-1, distinct numbers incl. xnum, lay.w0 <= 4, one stored block <= 65535 bytes when FlateDecode'd. "
             "LAYOUTS THAT REMAIN without an end-to-end theorem (decided by the correspondence run against the oracle DocSpec.resolve): (1) length holders that are not plain "
             "file-level integer objects (a holder inside an object stream, or itself dependent), a cross-reference stream object whose own /Length is a reference; "
             "(2) object streams and cross-reference streams through filter chains other than none / one FlateDecode with stored blocks (Huffman-coded zlib streams, "
             "ASCIIHex, ASCII85, chains) - C06 has the layer theorems, they are not composed here; (3) hybrid files INSIDE the known finding (hidden generation 0: the model "
             "loses the object, hybrid_hidden_gen0_witness); (4) object-stream containers whose own /Length is a reference, containers listed but not defined; "
-            "(5) multi-revision files with cross-reference-stream / hybrid sections (C04: histories of ANY number of classic-table revisions are closed by C04.newest_wins_history); (6) the generator link for stream / hybrid layouts and "
+            "(5) multi-revision files with hybrid sections or object streams (C04: histories of ANY number of revisions with classic tables and cross-reference streams in any mix are closed by C04.newest_wins_history_mix); (6) the generator link for hybrid layouts, object-stream members, multi-revision histories and "
             "for non-scalar values. Technical side conditions of all end-to-end theorems: no byte 's' in the white space / comments between `startxref` and its number, no "
             "further %%EOF after the last one, files below 2^63 bytes where object streams are involved.",
         "load_never_panics_partial":
@@ -118,7 +128,7 @@ CFG = {
     "n": {"quick": 1000, "thorough": 30000},
     "exhaustive": {"quick": False, "thorough": False},
     "shrink": False,
-    "rule": "corpus (hand-built: tiny classic / garbage / two objects / identity mismatch / non-reference root / startxref out of range / no magic / "
+    "rule": "corpus (w0_no_type_field; hand-built: tiny classic / garbage / two objects / identity mismatch / non-reference root / startxref out of range / no magic / "
             "no startxref / forward /Length / missing holder / minimal xref stream; smallest generated instances of the known finding) + per seed one "
             "document from the spec-side generator (Spec/Doc.lean renderHistory with one revision): 2-6 user objects with values from the C02 generator "
             "spelled by Spelling.spell (random choices), generations 0-2, some streams with random data and extra entries, /Length direct or by reference "
@@ -133,7 +143,9 @@ CFG = {
             "unused number: forward /Length stream (second pass only), plain object, backward /Length stream) - all must be rejected - plus the uncorrupted "
             "control that must load exactly; an ACCEPTED load of a corrupted (mut) file is checked from the bytes alone: every in-use entry of the newest "
             "section, when that is a classic table read by position, must be defined and have n g obj at its offset (class accepted-with-wrong-object-at-entry); "
-            "every 4th document again with the offsets of two in-use "
+            "every 5th case index a `w0` document: a cross-reference stream WITHOUT a type field (/W [0 n m], only in-use rows, /Index leaving out object 0) - "
+            "as the file's section, or behind a hybrid table whose /XRefStm stream lists every second user object as in-use rows that the table does not mention (must load exactly; "
+            "catches a decoder that forgets the type-1 default of a zero-width type field); every 4th document again with the offsets of two in-use "
             "entries exchanged (must be rejected); every 2nd with one corruption (truncate, alter/delete/insert a byte, replace a number by an extreme "
             "one, cut the middle) judged for correspondence and no panic. Oracle = DocSpec.resolve on what the encoder wrote (never the model); it also "
             "re-derives the file from the seed and compares the bytes. non-trivial = document/history of >= 300 bytes, any mismatch or corpus case, a "
